@@ -192,8 +192,11 @@ def faces_to_path(mesh, face_ids=None, **kwargs):
         edges = mesh.edges_sorted.reshape((-1, 6))[face_ids].reshape((-1, 2))
     # an edge which occurs onely once is on the boundary
     unique_edges = grouping.group_rows(edges, require_count=1)
-    # add edges and vertices to kwargs
-    kwargs.update(edges_to_path(edges=edges[unique_edges], vertices=mesh.vertices))
+    # add edges and a copy of the vertices to kwargs: an array over
+    # the memory of `mesh.vertices` would be edited along with the mesh
+    kwargs.update(
+        edges_to_path(edges=edges[unique_edges], vertices=np.array(mesh.vertices))
+    )
 
     return kwargs
 
